@@ -36,6 +36,12 @@ fn finalize_body<const NV: usize, const NA: usize>(fast_start: bool, audio_track
     let mut w = build_writer::<NV, NA>(RecSink::new(), vpts, vkey, apts, audio_track);
     let r = w.finalize(&c.track, None, fast_start);
     assert!(r.is_ok(), "finalize succeeds with a fault-free sink");
+    if replay_mode() {
+        // native replay of a solver counterexample: judge the real file (real moov)
+        native_finalize_check::<NV, NA>(&mp4h::sink(&w).log, &vpts, &vkey, &apts, audio_track, fast_start);
+        core::mem::forget((w, r));
+        return;
+    }
     let sink = mp4h::sink(&w);
     assert!(c.calls.get() == if fast_start { 2 } else { 1 }, "moov built once (standard) or measured + built (fast start)");
     let mc = final_call(&c);
@@ -132,8 +138,10 @@ fin_h!(c01_fast_v2a1, 2, 1, true, true, 8, 6);
 fin_h!(c01_std_v1a1, 1, 1, false, true, 8, 6);
 //@ prop=C01 tier=thorough cost=120 fns="Mp4Writer::finalize,finalize_fast_start,compute_interleave_schedule" bound="fast start, 1 video + 1 audio sample" unwind=6 stubs="build_moov_box(recording stand-in)" covers_optional="reordered|in-order"
 fin_h!(c01_fast_v1a1, 1, 1, true, true, 8, 6);
-//@ prop=C01 tier=thorough cost=100 fns="Mp4Writer::finalize,finalize_standard" bound="audio configured but no audio samples, 2 video samples" unwind=6 stubs="build_moov_box(recording stand-in)"
+//@ prop=C01,C02 tier=quick cost=250 fns="Mp4Writer::finalize,finalize_standard" bound="audio configured but no audio samples, 2 video samples (one track per configured stream)" unwind=6 stubs="build_moov_box(recording stand-in)"
 fin_h!(c01_std_v2a0, 2, 0, false, true, 8, 6);
+//@ prop=C01,C02 tier=thorough cost=300 fns="Mp4Writer::finalize,finalize_fast_start" bound="fast start, audio configured but no audio samples, 2 video samples" unwind=6 stubs="build_moov_box(recording stand-in)" timeout=2400
+fin_h!(c01_fast_v2a0, 2, 0, true, true, 8, 6);
 //@ prop=C01 tier=thorough cost=1000 fns="Mp4Writer::finalize,finalize_standard,compute_interleave_schedule" bound="3 video + 1 audio samples" unwind=6 stubs="build_moov_box(recording stand-in)" timeout=3000 mem=30
 fin_h!(c01_std_v3a1, 3, 1, false, true, 8, 7);
 //@ prop=C01 tier=thorough cost=1000 fns="Mp4Writer::finalize,finalize_standard,compute_interleave_schedule" bound="2 video + 2 audio samples" unwind=6 stubs="build_moov_box(recording stand-in)" timeout=3000 mem=30
@@ -157,6 +165,11 @@ pub fn c01_reordered_video_with_audio() {
     let mut w = build_writer::<2, 1>(RecSink::new(), vpts, [true, false], apts, true);
     let r = w.finalize(&c.track, None, false);
     assert!(r.is_ok());
+    if replay_mode() {
+        native_finalize_check::<2, 1>(&mp4h::sink(&w).log, &vpts, &[true, false], &apts, true, false);
+        core::mem::forget((w, r));
+        return;
+    }
     let v = final_call(&c).video;
     let sink = mp4h::sink(&w);
     assert!(Some(v.chunk_offsets[0] as u64) == sink.pos_of(vtag(0)), "video sample 0 offset points at its own payload");
